@@ -39,7 +39,8 @@ EXTRA = ["(", ")", ",", ";", "'", '"', "`", "{{", "}}", "{%", "%}", "{#", "--", 
          "with", "as", "insert", "into", "*", ".", "::", "[", "]", "$", "@", "#", "\\", "\x00", "\n", "values", "(select 1)", "case",
          "when", "end", "over", "lateral", "merge", "using", "update", "set", "table", "=", "||", "0", "''", "${x}", ":p", "?", "%s",
          "swap_partitions_between_tables('a','b')", "swap_partitions_between_tables(", "exists", "not", "in", "like", "copy", "drop",
-         "rename", "to", "alter", "create", "view", "overwrite", "directory", "partition", "by", "group", "having", "limit", "unnest("]
+         "rename", "to", "alter", "create", "view", "overwrite", "directory", "partition", "by", "group", "having", "limit", "unnest(",
+         "%", "'%'", "'100%'", "like 'a%'", "%(x)s", "%d", "{}", "{0}", "\\n", "'a''b'", "grant", "index", "comment on", "commit"]
 META = set("{}'\"`[]$@#\\\x00") | {"{{", "{%"}
 
 
@@ -178,7 +179,9 @@ def _pool():
     if "pool" not in _state:
         entries = corpus.plain(include_tpcds=False)
         tp = [e for e in corpus.tpcds() if len(e["sql"]) < 2500]
-        _state["pool"] = entries + tp
+        # statements of unsupported types take part in the mutation pool too (their error path formats the statement text)
+        unsup = [{"sql": u, "dialect": d, "metadata": None} for u in UNSUPPORTED_CANDIDATES for d in ("ansi", "mysql", "postgres")]
+        _state["pool"] = entries + tp + unsup
         _state["toks"] = [TOK.findall(e["sql"]) for e in _state["pool"]]
         _state["texts"] = {e["sql"] for e in _state["pool"]}
         _state["dialects"] = all_dialects()
@@ -314,6 +317,8 @@ def _reject_worker(payload):
 
 # ------------------------------------------------------------------------------------------ silent stream
 UNSUPPORTED_CANDIDATES = [
+    "GRANT SELECT ON tab1 TO 'usr1'@'%'", "CREATE INDEX idx1 ON tab1 (col1) WHERE col1 LIKE 'tmp%'", "COMMENT ON TABLE tab1 IS '100% done {ok}'",
+    "GRANT ALL ON tab1 TO `u%s`", "CREATE INDEX idx2 ON tab1 (col1) WHERE col1 = '{0}'",
     "CREATE INDEX idx1 ON tab1 (col1)", "GRANT SELECT ON tab1 TO usr1", "COMMIT", "ROLLBACK", "CREATE SCHEMA sch1",
     "DROP INDEX idx1", "CREATE SEQUENCE seq1", "EXPLAIN SELECT 1", "CREATE DATABASE db1", "DROP SCHEMA sch1",
     "CREATE ROLE r1", "DROP DATABASE db1", "REVOKE SELECT ON tab1 FROM usr1", "BEGIN", "CREATE USER u1",
